@@ -59,6 +59,7 @@ func vhSetGAS(g *GAS, ic *interop.Context, acc util.Uint160, bal *big.Int) {
 
 //vf:tier quick
 //vf:bigint theory
+//vf:bvints off
 //vf:unwind 64
 //vf:bound GAS: two accounts with any balances in [0,2^16) (thorough: 2^40), total supply equal to their sum; one transfer(from,to,amount,data) with from/to any of the accounts (also equal), any amount in (-2^8, 2^17) (thorough: 2^41), witness present or not, recipient not a contract
 //vf:stub the witness check sees one Global signer that is or is not the sender; the recipient is not a deployed contract (no payment callback)
